@@ -27,6 +27,8 @@ def classify(before_src: str, op: dict, diffs: list[str]) -> str:
         return 'stmt-put-at-eof-without-newline-with-trailing-space-trivia'
     if d0.startswith('source does not parse') and edits.continuation_semicolon_case(before_src, op):
         return 'stmt-put-before-continuation-semicolon-with-trailing-trivia'
+    if d0.startswith('source does not parse') and op['kind'] == 'put_line_comment' and tgt is not None and edits.stmt_before_continuation_semicolon(before_src, tgt):
+        return 'line-comment-put-before-continuation-semicolon'
     if 'positional argument follows keyword argument' in d0:
         # Call.args / ClassDef.bases real-field put of a positional element behind a keyword
         holder = tgt
